@@ -10,7 +10,9 @@ C02. Writer output is always readable; write/parse round trips are lossless.
   order.
 -/
 import EdxmlModel.Stream.Writer
+import EdxmlModel.Stream.Filter
 import EdxmlProps.C15
+import EdxmlProps.Lemmas.Merge
 namespace EdxmlProps.C02
 open Edxml
 
@@ -300,5 +302,317 @@ example : unescapeAttr (escapeAttr "a\"b\n\tc\r".toList) = "a\"b\n\tc\r".toList 
 example : (wrun true {} [.addEvent 0 "t" "/s/" true, .addOntology ["t"] ["/s/"] true, .addEvent 1 "t" "/s/" true,
     .addEvent 2 "t" "/s/" false, .addEvent 3 "u" "/s/" true, .addEvent 4 "t" "/s/" true]).out =
     [.ont .ok ["t"] ["/s/"], .event 1 "t" "/s/" true, .event 4 "t" "/s/" true] := by decide +kernel
+
+/-! ### the pass-through filter -/
+
+/-- what the filter output looks like: every ontology element holds everything defined so far, every
+event is of a defined type and source (and valid, when validating), nothing else -/
+def SelfAcc (v : Bool) : List String × List String → List Item → Prop
+  | _, [] => True
+  | cur, .ont o ts ss :: r => o = .ok ∧ canonS (cur.1 ++ ts) = ts ∧ canonS (cur.2 ++ ss) = ss ∧ SelfAcc v (ts, ss) r
+  | cur, .event _ t s g :: r => cur.2.contains s = true ∧ cur.1.contains t = true ∧ (v && !g) = false ∧ SelfAcc v cur r
+  | _, .foreign _ :: _ => False
+
+/-- parser and writer of a filter hold the same definitions -/
+structure Sync (s : FState) (cur : List String × List String) : Prop where
+  pont : s.p.ont.getD ([], []) = cur
+  pnone : s.p.ont = none → cur = ([], [])
+  wt : s.w.types = cur.1
+  ws : s.w.sources = cur.2
+
+theorem canonS_absorb (a b : List String) : canonS (a ++ canonS (a ++ b)) = canonS (a ++ b) := by
+  rw [canonS_eq_iff]
+  intro x
+  simp only [List.mem_append, mem_canonS]
+  constructor
+  · rintro (h | h | h)
+    · exact Or.inl h
+    · exact Or.inl h
+    · exact Or.inr h
+  · intro h; exact Or.inr h
+
+theorem selfAcc_append (v : Bool) : ∀ (a b : List Item) (cur : List String × List String),
+    SelfAcc v cur (a ++ b) ↔ SelfAcc v cur a ∧ SelfAcc v (a.foldl (fun c it => match it with | .ont _ ts ss => (ts, ss) | _ => c) cur) b
+  | [], b, cur => by simp [SelfAcc]
+  | .ont o ts ss :: r, b, cur => by
+    simp only [List.cons_append, SelfAcc, List.foldl_cons, selfAcc_append v r b (ts, ss)]
+    constructor
+    · rintro ⟨h1, h2, h3, h4, h5⟩; exact ⟨⟨h1, h2, h3, h4⟩, h5⟩
+    · rintro ⟨⟨h1, h2, h3, h4⟩, h5⟩; exact ⟨h1, h2, h3, h4, h5⟩
+  | .event i t s g :: r, b, cur => by
+    simp only [List.cons_append, SelfAcc, List.foldl_cons, selfAcc_append v r b cur]
+    constructor
+    · rintro ⟨h1, h2, h3, h4, h5⟩; exact ⟨⟨h1, h2, h3, h4⟩, h5⟩
+    · rintro ⟨⟨h1, h2, h3, h4⟩, h5⟩; exact ⟨h1, h2, h3, h4, h5⟩
+  | .foreign i :: r, b, cur => by simp [SelfAcc]
+
+
+theorem sync_some {s : FState} {cur : List String × List String} (h : Sync s cur) (hne : cur.2 ≠ []) : s.p.ont = some cur := by
+  cases ho : s.p.ont with
+  | none => have := h.pnone ho; rw [this] at hne; exact absurd rfl hne
+  | some c => have := h.pont; rw [ho] at this; simpa using this
+
+theorem contains_ne_nil {l : List String} {x : String} (h : l.contains x = true) : l ≠ [] := by
+  intro e; subst e; simp at h
+
+/-- an ontology element: the writer is given the accumulated ontology and writes it -/
+theorem fstep_ont (v : Bool) (s : FState) (cur : List String × List String) (ts ss : List String) (h : Sync s cur) :
+    ∃ s', fstep v s (.ont .ok ts ss) = (s', none) ∧
+      s'.w.out = s.w.out ++ [.ont .ok (canonS (cur.1 ++ ts)) (canonS (cur.2 ++ ss))] ∧
+      Sync s' (canonS (cur.1 ++ ts), canonS (cur.2 ++ ss)) ∧
+      s'.p = (pstep (filterReg v) s.p (.ont .ok ts ss)).1 ∧
+      wstep v s.w (.addOntology (canonS (cur.1 ++ ts)) (canonS (cur.2 ++ ss)) true) = (s'.w, none) := by
+  obtain ⟨e1, e2, _⟩ := pstep_ont_ok (filterReg v) s.p ts ss
+  rw [h.pont] at e2
+  refine ⟨{ p := (pstep (filterReg v) s.p (.ont .ok ts ss)).1,
+            w := (wstep v s.w (.addOntology (canonS (cur.1 ++ ts)) (canonS (cur.2 ++ ss)) true)).1 }, ?_, ?_, ?_, rfl, ?_⟩
+  · simp only [fstep, e1, e2, Option.getD_some, wstep, if_true]
+  · simp only [wstep, if_true]
+  rotate_left
+  · simp only [wstep, if_true]
+  · constructor
+    · simp only [e2, Option.getD_some]
+    · intro hn; simp only [e2] at hn; cases hn
+    · simp only [wstep, if_true, h.wt]; exact canonS_absorb _ _
+    · simp only [wstep, if_true, h.ws]; exact canonS_absorb _ _
+
+theorem fstep_event (v : Bool) (s : FState) (cur : List String × List String) (i : Nat) (t src : String) (g : Bool)
+    (h : Sync s cur) (h1 : cur.2.contains src = true) (h2 : cur.1.contains t = true) (h3 : (v && !g) = false) :
+    ∃ s', fstep v s (.event i t src g) = (s', none) ∧ s'.w.out = s.w.out ++ [.event i t src g] ∧ Sync s' cur ∧
+      s'.p = (pstep (filterReg v) s.p (.event i t src g)).1 ∧ wstep v s.w (.addEvent i t src g) = (s'.w, none) := by
+  have ho := sync_some h (contains_ne_nil h1)
+  obtain ⟨e1, e2, _⟩ := pstep_event_ok (filterReg v) s.p i t src g cur.1 cur.2 ho h1 h2 h3
+  have hw : wstep v s.w (.addEvent i t src g) = ({ s.w with out := s.w.out ++ [Item.event i t src g] }, none) := by
+    simp only [wstep, h.wt, h.ws, h1, h2, h3, Bool.not_true, Bool.false_eq_true, if_false]
+  refine ⟨{ p := (pstep (filterReg v) s.p (.event i t src g)).1, w := { s.w with out := s.w.out ++ [Item.event i t src g] } }, ?_, ?_, ?_, rfl, hw⟩
+  · simp only [fstep, e1, hw]
+  · simp only
+  · exact ⟨by simp only [e2]; exact h.pont, by intro hn; simp only [e2] at hn; exact h.pnone hn, h.wt, h.ws⟩
+
+/-- C02: what a filter has written can be filtered again, and comes out as it is -/
+theorem filter_replays (v : Bool) : ∀ (items : List Item) (s : FState) (cur : List String × List String),
+    Sync s cur → SelfAcc v cur items → ∃ s', frun v s items = (s', none) ∧ s'.w.out = s.w.out ++ items
+  | [], s, _, _, _ => ⟨s, rfl, by simp⟩
+  | .ont o ts ss :: r, s, cur, hs, ha => by
+    obtain ⟨rfl, h1, h2, h3⟩ := ha
+    obtain ⟨s1, e1, e2, e3, _, _⟩ := fstep_ont v s cur ts ss hs
+    rw [h1, h2] at e2 e3
+    obtain ⟨s2, f1, f2⟩ := filter_replays v r s1 (ts, ss) e3 h3
+    exact ⟨s2, by simp only [frun, e1, f1], by rw [f2, e2]; simp⟩
+  | .event i t src g :: r, s, cur, hs, ha => by
+    obtain ⟨h1, h2, h3, h4⟩ := ha
+    obtain ⟨s1, e1, e2, e3, _, _⟩ := fstep_event v s cur i t src g hs h1 h2 h3
+    obtain ⟨s2, f1, f2⟩ := filter_replays v r s1 cur e3 h4
+    exact ⟨s2, by simp only [frun, e1, f1], by rw [f2, e2]; simp⟩
+  | .foreign i :: r, _, _, _, ha => by cases ha
+
+theorem pstep_ont_bad (reg : Registry) (p : PState) (o : OntV) (ts ss : List String) (h : o ≠ .ok) :
+    ∃ e, (pstep reg p (.ont o ts ss)).2 = some e := by
+  cases o with
+  | ok => exact absurd rfl h
+  | semFail => exact ⟨_, rfl⟩
+  | schemaSemFail => exact ⟨_, rfl⟩
+  | schemaSemOk => exact ⟨_, rfl⟩
+
+theorem wstep_event_none (v : Bool) (w w' : WState) (i : Nat) (t src : String) (g : Bool)
+    (h : wstep v w (.addEvent i t src g) = (w', none)) :
+    w.sources.contains src = true ∧ w.types.contains t = true ∧ (v && !g) = false := by
+  simp only [wstep] at h
+  cases c1 : w.sources.contains src with
+  | false => rw [c1] at h; simp at h
+  | true =>
+    cases c2 : w.types.contains t with
+    | false => rw [c1, c2] at h; simp at h
+    | true =>
+      cases c3 : (v && !g) with
+      | true => rw [c1, c2, c3] at h; simp at h
+      | false => exact ⟨rfl, rfl, rfl⟩
+
+/-- C02: the shape of what a filter writes -/
+theorem filter_output_shape (v : Bool) : ∀ (items : List Item) (s s' : FState) (cur : List String × List String),
+    Sync s cur → frun v s items = (s', none) → ∃ d, s'.w.out = s.w.out ++ d ∧ SelfAcc v cur d
+  | [], s, s', cur, _, h => by
+    simp only [frun, Prod.mk.injEq, and_true] at h
+    subst h
+    exact ⟨[], by simp, trivial⟩
+  | .ont o ts ss :: r, s, s', cur, hs, h => by
+    by_cases ho : o = .ok
+    · subst ho
+      obtain ⟨s1, e1, e2, e3, _, _⟩ := fstep_ont v s cur ts ss hs
+      simp only [frun, e1] at h
+      obtain ⟨d, f1, f2⟩ := filter_output_shape v r s1 s' _ e3 h
+      refine ⟨Item.ont .ok (canonS (cur.1 ++ ts)) (canonS (cur.2 ++ ss)) :: d, by rw [f1, e2]; simp, ?_⟩
+      exact ⟨rfl, canonS_absorb _ _, canonS_absorb _ _, f2⟩
+    · obtain ⟨e, he⟩ := pstep_ont_bad (filterReg v) s.p o ts ss ho
+      simp only [frun, fstep, he] at h
+      cases h
+  | .event i t src g :: r, s, s', cur, hs, h => by
+    cases hp : (pstep (filterReg v) s.p (.event i t src g)).2 with
+    | some e => simp only [frun, fstep, hp] at h; cases h
+    | none =>
+      cases hw : wstep v s.w (.addEvent i t src g) with
+      | mk w1 e =>
+        cases e with
+        | some err => simp only [frun, fstep, hp, hw] at h; cases h
+        | none =>
+          obtain ⟨c1, c2, c3⟩ := wstep_event_none v s.w w1 i t src g hw
+          rw [hs.ws] at c1
+          rw [hs.wt] at c2
+          obtain ⟨s1, e1, e2, e3, _, _⟩ := fstep_event v s cur i t src g hs c1 c2 c3
+          simp only [frun, e1] at h
+          obtain ⟨d, f1, f2⟩ := filter_output_shape v r s1 s' cur e3 h
+          exact ⟨Item.event i t src g :: d, by rw [f1, e2]; simp, ⟨c1, c2, c3, f2⟩⟩
+  | .foreign i :: r, s, s', cur, hs, h => by
+    obtain ⟨e1, e2, _⟩ := pstep_foreign_ok (filterReg v) s.p i
+    simp only [frun, fstep, e1] at h
+    have hs1 : Sync { s with p := (pstep (filterReg v) s.p (.foreign i)).1 } cur :=
+      ⟨by simp only [e2]; exact hs.pont, by intro hn; simp only [e2] at hn; exact hs.pnone hn, hs.wt, hs.ws⟩
+    exact filter_output_shape v r { s with p := (pstep (filterReg v) s.p (.foreign i)).1 } s' cur hs1 h
+
+theorem sync_init : Sync {} ([], []) := ⟨rfl, fun _ => rfl, rfl, rfl⟩
+
+/-- C02: filtering the output of the pass-through filter reproduces it -/
+theorem filter_idempotent (v : Bool) (items out : List Item) (h : filterOut v items = some out) :
+    filterOut v out = some out := by
+  unfold filterOut at h
+  cases hr : frun v {} items with
+  | mk s e =>
+    rw [hr] at h
+    cases e with
+    | some _ => cases h
+    | none =>
+      simp only [Option.some.injEq] at h
+      obtain ⟨d, f1, f2⟩ := filter_output_shape v items {} s _ sync_init hr
+      have hd : d = out := by
+        rw [← h, f1]; rfl
+      subst hd
+      obtain ⟨s2, g1, g2⟩ := filter_replays v d {} _ sync_init f2
+      unfold filterOut
+      rw [g1]
+      simp only [g2]
+      rfl
+
+
+theorem prun_cons_ok (reg : Registry) (s : PState) (it : Item) (r : List Item) (h : (pstep reg s it).2 = none) :
+    prun reg s (it :: r) = prun reg (pstep reg s it).1 r := by
+  cases hx : pstep reg s it with
+  | mk a b =>
+    rw [hx] at h
+    simp only at h
+    subst h
+    simp [prun, hx]
+
+/-- what holds between the filter's parser (which reads the input), its writer, and a parser that
+reads what the writer wrote -/
+structure FInv (v : Bool) (s : FState) (pout : PState) : Prop where
+  parsed : prun (filterReg v) {} s.w.out = (pout, none)
+  agree : Agree (filterReg v) s.w pout
+  delivered : s.p.log.filterMap EdxmlProps.C15.deliveredEvent = eventIdxs s.w.out
+  hasOnt : hasOnt s.w.out = s.p.ont.isSome
+
+theorem finv_write (v : Bool) (s s1 : FState) (pout : PState) (op : WOp) (hi : FInv v s pout)
+    (hw : wstep v s.w op = (s1.w, none)) :
+    ∃ it pout', s1.w.out = s.w.out ++ [it] ∧ prun (filterReg v) {} s1.w.out = (pout', none) ∧ Agree (filterReg v) s1.w pout' := by
+  obtain ⟨it, hout, hstep, ha'⟩ := step_agree (filterReg v) v (fun _ => by simp [filterReg] at *; assumption) s.w s1.w pout op hw hi.agree
+  refine ⟨it, _, hout, ?_, ha'⟩
+  rw [hout, prun_append, hi.parsed]
+  simp only
+  rw [prun_cons_ok _ _ _ _ hstep]
+  rfl
+
+theorem frun_inv (v : Bool) : ∀ (items : List Item) (s s' : FState) (cur : List String × List String) (pout : PState),
+    Sync s cur → FInv v s pout → frun v s items = (s', none) →
+      ∃ pout' cur', FInv v s' pout' ∧ prun (filterReg v) s.p items = (s'.p, none) ∧ Sync s' cur'
+  | [], s, s', cur, pout, hs, hi, h => by
+    simp only [frun, Prod.mk.injEq, and_true] at h
+    subst h
+    exact ⟨pout, cur, hi, rfl, hs⟩
+  | .ont o ts ss :: r, s, s', cur, pout, hs, hi, h => by
+    by_cases ho : o = .ok
+    · subst ho
+      obtain ⟨s1, e1, e2, e3, e4, e5⟩ := fstep_ont v s cur ts ss hs
+      simp only [frun, e1] at h
+      obtain ⟨it, pout1, g1, g2, g3⟩ := finv_write v s s1 pout _ hi e5
+      obtain ⟨p1, p2, p3⟩ := pstep_ont_ok (filterReg v) s.p ts ss
+      have hi1 : FInv v s1 pout1 := by
+        refine ⟨g2, g3, ?_, ?_⟩
+        · rw [e4, p3, List.filterMap_append, hi.delivered, e2, eventIdxs_append]
+          simp [eventIdxs, EdxmlProps.C15.deliveredEvent]
+        · rw [e2, e4, p2, hasOnt_append]; simp [hasOnt]
+      obtain ⟨pout', cur', k1, k2, k3⟩ := frun_inv v r s1 s' _ pout1 e3 hi1 h
+      refine ⟨pout', cur', k1, ?_, k3⟩
+      rw [prun_cons_ok _ _ _ _ p1, ← e4]; exact k2
+    · obtain ⟨e, he⟩ := pstep_ont_bad (filterReg v) s.p o ts ss ho
+      simp only [frun, fstep, he] at h
+      cases h
+  | .event i t src g :: r, s, s', cur, pout, hs, hi, h => by
+    cases hp : (pstep (filterReg v) s.p (.event i t src g)).2 with
+    | some e => simp only [frun, fstep, hp] at h; cases h
+    | none =>
+      cases hw : wstep v s.w (.addEvent i t src g) with
+      | mk w1 e =>
+        cases e with
+        | some err => simp only [frun, fstep, hp, hw] at h; cases h
+        | none =>
+          obtain ⟨c1, c2, c3⟩ := wstep_event_none v s.w w1 i t src g hw
+          rw [hs.ws] at c1
+          rw [hs.wt] at c2
+          obtain ⟨s1, e1, e2, e3, e4, e5⟩ := fstep_event v s cur i t src g hs c1 c2 c3
+          simp only [frun, e1] at h
+          obtain ⟨it, pout1, g1, g2, g3⟩ := finv_write v s s1 pout _ hi e5
+          have ho := sync_some hs (contains_ne_nil c1)
+          obtain ⟨p1, p2, p3⟩ := pstep_event_ok (filterReg v) s.p i t src g cur.1 cur.2 ho c1 c2 c3
+          have hi1 : FInv v s1 pout1 := by
+            refine ⟨g2, g3, ?_, ?_⟩
+            · rw [e4, p3, List.filterMap_append, hi.delivered, e2, eventIdxs_append,
+                dispatch_overridden (filterReg v) _ i t src rfl rfl rfl]
+              simp [eventIdxs, EdxmlProps.C15.deliveredEvent]
+            · rw [e2, e4, p2, hasOnt_append, hi.hasOnt]; simp [hasOnt]
+          obtain ⟨pout', cur', k1, k2, k3⟩ := frun_inv v r s1 s' cur pout1 e3 hi1 h
+          refine ⟨pout', cur', k1, ?_, k3⟩
+          rw [prun_cons_ok _ _ _ _ p1, ← e4]; exact k2
+  | .foreign i :: r, s, s', cur, pout, hs, hi, h => by
+    obtain ⟨e1, e2, e3⟩ := pstep_foreign_ok (filterReg v) s.p i
+    simp only [frun, fstep, e1] at h
+    have hs1 : Sync { s with p := (pstep (filterReg v) s.p (.foreign i)).1 } cur :=
+      ⟨by simp only [e2]; exact hs.pont, by intro hn; simp only [e2] at hn; exact hs.pnone hn, hs.wt, hs.ws⟩
+    have hi1 : FInv v { s with p := (pstep (filterReg v) s.p (.foreign i)).1 } pout := by
+      refine ⟨hi.parsed, hi.agree, ?_, ?_⟩
+      · simp only [e3, List.filterMap_append, hi.delivered]
+        simp [EdxmlProps.C15.deliveredEvent]
+      · simp only [e2]; exact hi.hasOnt
+    obtain ⟨pout', cur', k1, k2, k3⟩ := frun_inv v r { s with p := (pstep (filterReg v) s.p (.foreign i)).1 } s' cur pout hs1 hi1 h
+    refine ⟨pout', cur', k1, ?_, k3⟩
+    rw [prun_cons_ok _ _ _ _ e1]; exact k2
+
+/-- C02: what the pass-through filter writes for a document it accepts is accepted by a parser, which
+ends up with the same ontology and delivers the same events in the same order as a parser of the
+input -/
+theorem filter_lossless (v : Bool) (items out : List Item) (h : filterOut v items = some out) :
+    ∃ pin pout, prun (filterReg v) {} items = (pin, none) ∧ prun (filterReg v) {} out = (pout, none) ∧
+      pout.ont = pin.ont ∧
+      pout.log.filterMap EdxmlProps.C15.deliveredEvent = pin.log.filterMap EdxmlProps.C15.deliveredEvent := by
+  unfold filterOut at h
+  cases hr : frun v {} items with
+  | mk s e =>
+    rw [hr] at h
+    cases e with
+    | some _ => cases h
+    | none =>
+      simp only [Option.some.injEq] at h
+      subst h
+      have hi0 : FInv v {} {} := ⟨rfl, ⟨rfl, fun _ => ⟨rfl, rfl⟩, fun _ _ _ => rfl⟩, rfl, rfl⟩
+      obtain ⟨pout, cur', k1, k2, k3⟩ := frun_inv v items {} s _ {} sync_init hi0 hr
+      refine ⟨s.p, pout, k2, k1.parsed, ?_, ?_⟩
+      · rw [k1.agree.ont, k1.hasOnt]
+        cases ho : s.p.ont with
+        | none => rfl
+        | some c =>
+          have := k3.pont
+          rw [ho] at this
+          simp only [Option.getD_some] at this
+          simp only [Option.isSome_some, if_true, k3.wt, k3.ws, ← this]
+      · rw [k1.agree.delivered rfl rfl rfl, k1.delivered]
+
 
 end EdxmlProps.C02
